@@ -474,6 +474,19 @@ Walk:
 
 			// No next static segment found, but maybe some params or wildcard child
 			if idx < 0 {
+				// Tsr recommendation: remove the extra trailing slash (got an exact match)
+				// Only the trailing slash remain and we are about to go deeper in a wildcard child that can not match
+				// it, so this is the last chance to note that the current node is a leaf.
+				if !tsr && current.isLeaf() && charsMatched == len(path)-1 && path[charsMatched] == slashDelim &&
+					(current.paramChildIndex >= 0 || current.wildcardChildIndex >= 0) {
+					tsr = true
+					n = current
+					// Save also a copy of the matched params, it should not allocate anything in most case.
+					if !lazy {
+						copyWithResize(c.tsrParams, c.params)
+					}
+				}
+
 				// We have at least a param child which is has higher priority that catch-all
 				if current.paramChildIndex >= 0 {
 					// We have also a wildcard child, save it for later evaluation
